@@ -140,7 +140,7 @@ impl State {
                     }
                 }
                 let parse_tasks: Vec<&TaskMeta> = tasks.values().filter(|t| t.client == c && t.adf_name == pname && t.task == "Parse" && t.doc_id == prob.doc_id).collect();
-                let finished = parse_tasks.iter().any(|t| (t.ended || t.timed_out) && t.cont == crate::world::Cont::Done);
+                let finished = parse_tasks.iter().any(|t| !t.died && (t.ended || t.timed_out) && t.cont == crate::world::Cont::Done);
                 if finished && exact && acs["parse_only"]["type"].as_str() != Some("Error") && self.faulted_docs.is_empty() && !stale {
                     return Some(Violation::new("C-errors", "no-error-reported", format!("get {pname}: parsing of {text:?} is over but parse_only shows {}", acs["parse_only"])));
                 }
@@ -162,6 +162,10 @@ impl State {
                 for s in STRATEGIES {
                     let f = field_of(s);
                     if acs[f]["type"].as_str() != Some("Some") {
+                        continue;
+                    }
+                    if spec.n() > 8 && s != "Ground" {
+                        // the definitional oracle for complete / stable is exponential in n
                         continue;
                     }
                     let list = acs[f]["content"].as_array().cloned().unwrap_or_default();
@@ -235,7 +239,7 @@ impl State {
         }
         let acs = &j["acs_per_strategy"];
         // parse result present (Some or Error) once the parse task of this document is over
-        let parse_over = tasks.values().any(|t| t.client == c && t.adf_name == pname && t.task == "Parse" && t.doc_id == prob.doc_id && t.cont == crate::world::Cont::Done);
+        let parse_over = tasks.values().any(|t| !t.died && t.client == c && t.adf_name == pname && t.task == "Parse" && t.doc_id == prob.doc_id && t.cont == crate::world::Cont::Done);
         if parse_over && acs["parse_only"]["type"].as_str() == Some("None") {
             return Some(Violation::new("E-liveness", "parse-result-never-stored", format!("final get {pname}: parse task over, continuation completed, parse_only still None")));
         }
@@ -244,14 +248,14 @@ impl State {
                 continue;
             }
             let Some(t) = tasks.get(tid) else { continue };
-            if t.doc_id != prob.doc_id || t.cont != crate::world::Cont::Done {
+            if t.died || t.doc_id != prob.doc_id || t.cont != crate::world::Cont::Done {
                 continue;
             }
             let f = field_of(strat);
             let ty = acs[f]["type"].as_str().unwrap_or("?");
             // any acknowledged solve of this strategy on this document that hit its deadline
             // (or unwound) may have stored an error last
-            let any_failed = solves.iter().any(|(c2, p2, s2, t2)| c2 == sc && p2 == sp && s2 == strat && tasks.get(t2).map(|x| x.doc_id == t.doc_id && (x.timed_out || x.panicked)).unwrap_or(false));
+            let any_failed = solves.iter().any(|(c2, p2, s2, t2)| c2 == sc && p2 == sp && s2 == strat && tasks.get(t2).map(|x| x.doc_id == t.doc_id && (x.timed_out || x.panicked || x.died)).unwrap_or(false));
             let ok = if any_failed { ty == "Some" || ty == "Error" } else { ty == "Some" };
             if !ok {
                 return Some(Violation::new("E-liveness", "solve-result-missing", format!("final get {pname}: solve {strat} was acknowledged, its task ended (timed out: {}) and its write completed, but {f} shows {}", t.timed_out, clipv(&acs[f]))));
